@@ -3,6 +3,7 @@ package props
 import (
 	"bufio"
 	"bytes"
+	"encoding/json"
 	"errors"
 	"fmt"
 	"io"
@@ -42,6 +43,8 @@ type c08Entry struct {
 	Heavy bool
 	// NoDirty: the type documents that the receiver must be fresh/zero.
 	NoDirty bool
+	// JSON: the type itself (not an embedded field) offers MarshalJSON/UnmarshalJSON.
+	JSON bool
 	// Keyed: the encoding contains map keys. A corrupted key (neither a length
 	// nor a flag) may collide with another one, and the decoded map is then
 	// legitimately smaller than the bytes consumed; the "accepted but
@@ -248,6 +251,7 @@ func (p c08) Run(ctx *core.RunCtx) {
 		}
 		objs = append(objs, obj{e, v, data})
 		p.readPhase(ctx, g, e, v, data)
+		p.jsonPhase(ctx, g, e, v)
 		if mode == 1 {
 			p.sweep(ctx, g, e, v, data)
 		} else {
@@ -785,4 +789,66 @@ func (p c08) corrupt(ctx *core.RunCtx, g *c08Gen, e *c08Entry, v ser, data []byt
 		ctx.Count("probe.corruption-rejected", 1)
 	}
 	_ = errors.Is
+}
+
+func underlying(v ser) any {
+	if u, ok := v.(interface{ unwrap() any }); ok {
+		return u.unwrap()
+	}
+	return v
+}
+
+// jsonPhase: MarshalJSON / UnmarshalJSON round trip into fresh and dirty receivers.
+func (p c08) jsonPhase(ctx *core.RunCtx, g *c08Gen, e *c08Entry, v ser) {
+	if !e.JSON {
+		return
+	}
+	u := underlying(v)
+	if _, ok := u.(json.Marshaler); !ok {
+		ctx.Harness("%s is flagged JSON but does not implement json.Marshaler", e.Name)
+	}
+	if _, ok := u.(json.Unmarshaler); !ok {
+		return
+	}
+	var js []byte
+	r := guarded(false, func() (int64, error) { b, err := json.Marshal(u); js = b; return int64(len(b)), err })
+	ctx.Count("oracle.json", 1)
+	cls := e.Name + "|JSON"
+	if r.panicked || r.err != nil {
+		ctx.Fail("json", cls+"|marshal", "json.Marshal of a valid object failed: panic=%v %s err=%v", r.panicked, r.msg, r.err)
+		return
+	}
+	for round := 0; round < 2; round++ {
+		var recv ser
+		dn := "fresh"
+		if round == 1 {
+			if e.NoDirty {
+				continue
+			}
+			recv, dn = e.Gen(g), "dirty"
+			ctx.Count("fault.dirty-receiver", 1)
+		} else {
+			recv = e.New()
+		}
+		ru := underlying(recv)
+		r := guarded(false, func() (int64, error) { return 0, json.Unmarshal(js, ru) })
+		if r.panicked || r.err != nil {
+			ctx.Fail("json", cls+"|"+dn+"|unmarshal", "json.Unmarshal of the object's own JSON into a %s receiver failed: panic=%v %s err=%v", dn, r.panicked, r.msg, r.err)
+			return
+		}
+		var js2 []byte
+		r = guarded(false, func() (int64, error) { b, err := json.Marshal(ru); js2 = b; return 0, err })
+		if r.panicked || r.err != nil || !bytes.Equal(js, js2) {
+			ctx.Fail("json", cls+"|"+dn+"|differs", "the object decoded from JSON into a %s receiver re-encodes differently (%d vs %d bytes; err=%v): %s", dn, len(js2), len(js), r.err, firstDiff(js2, js))
+			return
+		}
+		if e.Equal != nil {
+			var eq, ok bool
+			r := guarded(false, func() (int64, error) { eq, ok = e.Equal(v, recv); return 0, nil })
+			if r.panicked || ok && !eq {
+				ctx.Fail("json", cls+"|"+dn+"|not-equal", "the object decoded from JSON into a %s receiver is not Equal to the original (panic=%v %s)", dn, r.panicked, r.msg)
+				return
+			}
+		}
+	}
 }
